@@ -1491,3 +1491,10 @@ package zap
 //@   track SS = call zap.StackSkip
 //@   modifies $user, comp(E:uintptr), comp(E:uint8), stacktrace.Formatter.nonEmpty, fields(buffer.Buffer), fields(stacktrace.Stack)
 //@   ensures #SS == 1 && SS.arg0[0] == key && SS.arg1[0] == 1 && result == SS.ret0[0]
+
+// New function of zap.Errors' element pool (C08): a wrapper with no error in it.
+//@ func zap.init$3
+//@   props C08
+//@   flags nopanic
+//@   modifies nothing
+//@   ensures fresh(result) && result.error == nil
